@@ -5,6 +5,8 @@ oracles never call into sketchnu except through the observation points the prope
 names (query/__getitem__/public tables, an empty probe sketch after one add)."""
 import os
 
+import hashlib
+
 import numpy as np
 
 from . import boot
@@ -577,6 +579,14 @@ class C05Checker(Checker):
                     self.fail("n_added_out_of_range", f"add({key.hex()},{v}) cut short: n_added grew by {dn}")
         else:
             at_ceiling = "cells" in ctx and min(int(sk.cms[r, c]) for r, c in enumerate(ctx["cells"])) >= int(sk.uint_maxval)
+            if at_ceiling and "c" in ctx and ctx["c"] < int(sk.uint_maxval) and v >= 1:
+                # ended on the ceiling, but was it cut short? Not if every unit was consumed: a
+                # single unit applied to a counter below the ceiling, or v units that advanced
+                # the counter by v steps (the last one landing on the ceiling)
+                c1_ = min(int(sk.cms[r, c]) for r, c in enumerate(ctx["cells"]))
+                if v == 1 or c1_ - ctx["c"] == v:
+                    at_ceiling = False
+                    w.probes["add_landing_exactly_on_the_ceiling"] += 1
             if at_ceiling or "cells" not in ctx:
                 # the add may have been cut short by the counter ceiling: the statement then
                 # only bounds the growth
@@ -636,6 +646,27 @@ class C05(WMode):
 
     def checker(self, cfg):
         return C05Checker()
+
+    def gen(self, rng, w, gs):
+        """Besides the common generator: for log sketches a directed 'landing' add, whose
+        multiplicity is the distance of the key's smallest counter to the ceiling, under draws
+        that are all 0.0 (every unit advances): the add consumes all its units and ends
+        exactly on the ceiling - not cut short."""
+        from .gen import gen_event
+
+        if w.fam in LOG and rng.random() < 0.05 and w.universe:
+            i = rng.randrange(len(w.nodes))
+            n = w.nodes[i]
+            ident = rng.choice(list(w.universe))
+            cells = w.owner_cells(ident) if n.primary is not None else False
+            if cells:
+                mx = int(n.primary.uint_maxval)
+                c0 = min(int(n.primary.cms[r, c]) for r, c in enumerate(cells))
+                d = mx - c0
+                if 1 <= d <= 1500:
+                    return {"op": "add", "node": i, "via": 0, "key": hexk(ident), "v": d - rng.choice([0, 0, 0, 1]), "ds": rng.getrandbits(31),
+                            "ptr": 0, "fd": 0.0}
+        return gen_event(rng, w, gs, self.weights(w.cfg), self.mult(w.cfg))
 
     def nontrivial(self, w):
         return w.counters["add"] > 0
@@ -962,6 +993,18 @@ class C10Checker(ShadowEq):
                     if state_bytes(peer, fam) != state_bytes(orig, fam):
                         self.fail("shared_load_not_backed_by_its_segment", f"{route} load(shared_memory=True): an object attached to the loaded sketch's block sees {self.where(w, peer, orig)}")
                     del peer
+                    # ... and so does a helper built the way parallel_add's workers and mergers
+                    # build theirs: type tag + the loaded sketch's own `args` + the block name
+                    from .world import sketch_args
+
+                    st, _ = sketch_args(w.cfg)
+                    helper = api("attach", boot.SK.helpers.attach_shared_memory, st, cp.args, shm.name)
+                    if type(helper) is not type(orig) or public_params(helper, fam) != public_params(orig, fam):
+                        self.fail("loaded_args_rebuild_a_different_sketch", f"{route} load(shared_memory=True): helpers.attach_shared_memory({st!r}, loaded.args, name) "
+                                                                            f"gives {public_params(helper, fam)}, the original is {public_params(orig, fam)}")
+                    if state_bytes(helper, fam) != state_bytes(orig, fam):
+                        self.fail("shared_load_not_backed_by_its_segment", f"{route}: helper attached with loaded.args sees {self.where(w, helper, orig)}")
+                    del helper
                     w.probes["shared_loads_checked_through_a_peer"] += 1
                 api("merge", cp.merge, orig)  # merges with the original without error
                 del cp
@@ -1425,6 +1468,7 @@ class C06Checker(Checker):
     def __init__(self, cfg):
         self.ref = None
         self.cfg = cfg
+        self.seen_refills = {}
 
     def get_ref(self, sk):
         if self.ref is None:
@@ -1599,6 +1643,15 @@ class C06Checker(Checker):
         changed = not np.array_equal(cur, first)
         if changed:
             w.probes["batch_refilled"] += 1
+            if w.free_gen:
+                # the harness has not touched the generator since the run began: two refills
+                # with the same content mean the stream was rewound, i.e. draws are handed out again
+                h = hashlib.sha1(np.ascontiguousarray(cur).tobytes()).hexdigest()
+                if h in self.seen_refills:
+                    self.fail("refill_repeats_an_earlier_batch", f"{ev['op']} (event {w.n_events}): the replenished batch is identical to the one "
+                                                                 f"drawn at event {self.seen_refills[h]}")
+                self.seen_refills[h] = w.n_events
+                w.probes["refills_with_generator_left_alone"] += 1
             if not ((cur >= 0.0).all() and (cur < 1.0).all()):
                 self.fail("draw_outside_unit_interval", ev["op"])
             if float((cur == first).mean()) > 0.01:
@@ -1689,6 +1742,9 @@ class C06(WMode):
         if cfg["sub"] == "law":
             w["law"] = 60
         cfg["weights"] = w
+        if cfg["sub"] == "history" and rng.random() < 0.35:
+            cfg["free_gen"], cfg["gen_seed"] = True, rng.getrandbits(31)
+            maybe_shared(rng, cfg, p=0.6)
         small = cfg["max_count"] <= 10 ** 5
         cfg["mult"] = {"one": 3, "small": 4, "mid": 2, "zero": 1, "big": 1 if small and fam == "log8" else 0}
         return cfg
